@@ -22,6 +22,7 @@ from simnet import SimNet, rtmod  # noqa: E402
 TYPES = [(8, 4), (16, 8), (32, 16), (64, 32), (24, 6)]
 CFGS_QUICK = [(1, 0, False), (3, 1, False), (3, 1, True)]
 CFGS_MORE = [(1, 0, True), (5, 2, False), (5, 2, True)]
+CFGS_SMALLK = [(1, 0, False, 1), (3, 1, False, 1), (3, 1, True, 2), (3, 1, False, 8)]   # (m, t, no_prss, sec_param)
 
 EXACT_OPS = {'neg', 'pos', 'add', 'sub', 'addi', 'subi', 'rsubi', 'muli', 'lshift', 'sum', 'vadd', 'vaddi', 'vsub',
              'ifelse', 'ifswap', 'ifelsel', 'ifswapl', 'all', 'abs', 'min', 'max', 'inputl', 'fromint'}
@@ -303,7 +304,8 @@ def run_real(cfg, lf, prog, seed=0, force_false=False, want_rnd=True):
 
     record = {'out': [[raw, flag], ...]} | {'error': 'ValueError'}, plus 'calls' (trunc calls) when recovered."""
     global _LOG
-    m, t, no_prss = cfg
+    m, t, no_prss = cfg[:3]
+    sec_param = cfg[3] if len(cfg) > 3 else None   # optional 4th component: security parameter k
     l, f = lf
     _install_logging()
     info = {}
@@ -329,7 +331,7 @@ def run_real(cfg, lf, prog, seed=0, force_false=False, want_rnd=True):
 
     _LOG = {i: [] for i in range(m)} if want_rnd else None
     try:
-        net = SimNet(m, t, no_prss=no_prss, seed=seed)
+        net = SimNet(m, t, no_prss=no_prss, seed=seed, sec_param=sec_param)
         res = net.run(program)
         log, _LOG = _LOG, None
     except Exception as exc:  # Deadlock / PartyError / anything raised by the real code
